@@ -8,9 +8,9 @@
 (* re-synchronises to the logged state.  Real deflate output is not inflated by the spec: the     *)
 (* check script inflates it with Python's zlib and logs the result as the field `orc`.           *)
 (* Verdicts: "ok", "ok-drift" (declarative contract holds, but the state differs from the        *)
-(* impl-shaped action), a known class ("png.avg", "decodeparms.array",                           *)
-(* "compress.stale-decodeparms": broken *exactly* as the deviation switch predicts, on an input   *)
-(* of that class), or the name of the broken clause.                                             *)
+(* impl-shaped action), the class of a repaired defect that came back ("png.avg",                *)
+(* "decodeparms.array", "compress.stale-decodeparms": broken *exactly* as the deviation switch     *)
+(* predicts, on an input of that class), or the name of the broken clause.                        *)
 EXTENDS StreamOps, Json, IOUtils
 
 Recs == ndJsonDeserialize(IOEnv.TRACE)
@@ -22,8 +22,8 @@ StateOf(j) ==
     [filters |-> j.filters, form |-> j.form, parms |-> j.parms, length |-> j.length, content |-> j.content,
      allows |-> j.allows, orc |-> j.orc]
 
-\* broken clauses in reporting order: unlisted ones first, so that a known finding in the same record never
-\* masks anything else; the three known classes last
+\* broken clauses in reporting order: generic ones first, so that a recognised regression class in the same
+\* record never masks anything else; the three classes of repaired defects last
 Order == <<"panic", "stream-count", "unknown-op", "length", "set_content", "set_plain_content", "compress.longer",
            "compress.lossy", "decompress.failed", "decompress.content", "untouched-stream-changed",
            "decompressed_content", "get_plain_content",
@@ -47,7 +47,7 @@ CompressIssues(pre, post) ==
     {IF LengthOK(post) THEN "" ELSE "length",
      IF Len(post.content) <= Len(pre.content) THEN "" ELSE "compress.longer",
      IF Decodable(pre) => View(post) = View(pre) THEN ""
-     ELSE IF "compress.stale-decodeparms" \in KnownClasses(pre, "compress") /\ post = ImplCompress(pre, post.content)
+     ELSE IF "compress.stale-decodeparms" \in KnownClasses(pre, "compress") /\ post = ImplCompress(pre, post.content, TRUE)
           THEN "compress.stale-decodeparms" ELSE "compress.lossy"}
 
 DecompressIssues(pre, post, res) ==
@@ -74,9 +74,9 @@ ImplPost(pre, rec, i) ==
     IF ~(rec.sid = 0 \/ rec.sid = i) THEN pre[i]
     ELSE CASE rec.op = "set_content"       -> ImplSetContent(pre[i], rec.arg)
            [] rec.op = "set_plain_content" -> ImplSetPlain(pre[i], rec.arg)
-           [] rec.op = "compress"          -> ImplCompress(pre[i], post.content)
-           [] rec.op = "doc_compress"      -> IF pre[i].allows THEN ImplCompress(pre[i], post.content) ELSE pre[i]
-           [] OTHER                        -> ImplDecompress(pre[i], TRUE, TRUE, FALSE)
+           [] rec.op = "compress"          -> ImplCompress(pre[i], post.content, FALSE)
+           [] rec.op = "doc_compress"      -> IF pre[i].allows THEN ImplCompress(pre[i], post.content, FALSE) ELSE pre[i]
+           [] OTHER                        -> ImplDecompress(pre[i], FALSE, FALSE, FALSE)
 
 Drift(pre, rec, i) ==
     LET post == StateOf(rec.post[i]) ip == ImplPost(pre, rec, i)
